@@ -14,20 +14,20 @@ Definition b2n (b : bool) : nat := if b then 1 else 0.
 Definition kind_count (r : pline) : nat :=
   b2n (is_comment r) + b2n (is_label r) + b2n (is_directive r) + b2n (is_instruction r).
 
-Lemma parse_instr_kind : forall mn ts r, parse_instr mn ts = Parsed r ->
+Lemma parse_instr_kind : forall fx mn ts r, parse_instr fx mn ts = Parsed r ->
   kind_count r = 1 /\ p_mnemonic r = Some mn.
 Proof.
-  intros mn ts r H. unfold parse_instr in H.
-  destruct (p_slots 5 true ts []) as [[ops rest]|]; [|discriminate].
+  intros fx mn ts r H. unfold parse_instr in H.
+  destruct (p_slots fx 5 true ts []) as [[ops rest]|]; [|discriminate].
   destruct rest as [|t rest]; [inversion H; subst; auto|].
   destruct t; try discriminate. destruct rest; [|discriminate]. inversion H; subst; auto.
 Qed.
 
-Lemma parse_toks_kind : forall ts r, parse_toks ts = Parsed r -> kind_count r = 1.
+Lemma parse_toks_kind : forall fx ts r, parse_toks fx ts = Parsed r -> kind_count r = 1.
 Proof.
-  intros ts r H. unfold parse_toks in H.
+  intros fx ts r H. unfold parse_toks in H.
   repeat match type of H with
-         | context [parse_instr ?m ?t] => fail 1
+         | context [parse_instr ?f ?m ?t] => fail 1
          | (match ?x with _ => _ end) = _ => destruct x eqn:?; try discriminate
          | (if ?x then _ else _) = _ => destruct x eqn:?; try discriminate
          end;
@@ -41,8 +41,8 @@ Proof.
   try (apply parse_instr_kind in H; tauto).
 Qed.
 
-Theorem classify_exclusive_model : forall line r, parse_line line = Parsed r -> kind_count r = 1.
+Theorem classify_exclusive_model : forall fx line r, parse_line fx line = Parsed r -> kind_count r = 1.
 Proof.
-  intros line r H. unfold parse_line in H. destruct (lex line); [|discriminate].
+  intros fx line r H. unfold parse_line in H. destruct (lex line); [|discriminate].
   eapply parse_toks_kind; eauto.
 Qed.
